@@ -75,6 +75,29 @@ type obs struct {
 	Hits []string        `json:"hits"`
 }
 
+// UnmarshalJSON accepts the record form (pairwise table) and the tuple form Tup(o) of the spec
+// (block cases): <<st, body, ct, xh, loc, auth, enc, tpl, vary, logs, hits>>.
+func (o *obs) UnmarshalJSON(b []byte) error {
+	type plain obs
+	if len(b) > 0 && b[0] == '{' {
+		return json.Unmarshal(b, (*plain)(o))
+	}
+	var t []json.RawMessage
+	if err := json.Unmarshal(b, &t); err != nil {
+		return err
+	}
+	if len(t) != 11 {
+		return fmt.Errorf("observation tuple of length %d", len(t))
+	}
+	dst := []interface{}{&o.St, &o.Body, &o.Ct, &o.Xh, &o.Loc, &o.Auth, &o.Enc, &o.Tpl, &o.Vary, &o.Logs, &o.Hits}
+	for i := range dst {
+		if err := json.Unmarshal(t[i], dst[i]); err != nil {
+			return err
+		}
+	}
+	return nil
+}
+
 type pairRow struct {
 	D1      string   `json:"d1"`
 	D2      string   `json:"d2"`
@@ -836,25 +859,51 @@ func (c *checker) checkPair(rn *runner, tc *tcase) {
 
 // ---------------------------------------------------------------- test
 
+// lineDir maps a pool line to its directive (LineDir in the spec); only lines that share a
+// directive matter here.
+func lineDir(id string) string {
+	switch id {
+	case "lg1", "lg2":
+		return "log"
+	case "rw1", "rw2":
+		return "rewrite"
+	case "hd1", "hd2", "hd3":
+		return "header"
+	case "px1", "px2":
+		return "proxy"
+	}
+	return id
+}
+
+// admissible rearranges order so that lines of one directive keep the relative order they
+// have in block (the positions a directive occupies stay the same).
+func admissible(block, order []string) []string {
+	byDir := map[string][]string{}
+	for _, l := range block {
+		byDir[lineDir(l)] = append(byDir[lineDir(l)], l)
+	}
+	out := make([]string, len(order))
+	for i, l := range order {
+		d := lineDir(l)
+		out[i] = byDir[d][0]
+		byDir[d] = byDir[d][1:]
+	}
+	return out
+}
+
 func pickOrders(tc *tcase, rnd *rand.Rand, n int) [][]string {
-	// always the reverse of the documented order when it is admissible (it is, unless two lines
-	// share a directive), then seeded picks
-	var out [][]string
-	perms := tc.Perms
+	// always the reverse of the documented order (same-directive lines put back in their
+	// relative order), then seeded picks from the reorderings TLC enumerated
 	rev := make([]string, len(tc.Block))
 	for i, l := range tc.Block {
 		rev[len(rev)-1-i] = l
 	}
-	for _, p := range perms {
-		if sameOrder(p, rev) {
-			out = append(out, p)
-		}
-	}
-	for _, k := range rnd.Perm(len(perms)) {
+	out := [][]string{admissible(tc.Block, rev)}
+	for _, k := range rnd.Perm(len(tc.Perms)) {
 		if len(out) >= n {
 			break
 		}
-		p := perms[k]
+		p := tc.Perms[k]
 		dup := sameOrder(p, tc.Block)
 		for _, o := range out {
 			dup = dup || sameOrder(o, p)
@@ -1003,6 +1052,11 @@ func TestC09(t *testing.T) {
 	}
 	for k, b := range todo {
 		ords := pickOrders(b, rnd, nOrders)
+		for _, o := range ords {
+			if len(o) != len(b.Block) || !sameOrder(admissible(b.Block, o), o) {
+				c.setInfra(fmt.Errorf("inadmissible reordering %v of block %v", o, b.Block))
+			}
+		}
 		jobs <- job{tc: b, orders: ords}
 		if k%211 == 7 && len(ords) > 0 {
 			rr := rand.New(rand.NewSource(1))
@@ -1051,5 +1105,13 @@ func replayOne(t *testing.T, c *checker, rc *rcase) {
 	}
 	if c.infra != nil {
 		c.res.Infra = c.infra.Error()
+	}
+}
+
+// TestAdmissible pins the helper that builds the reverse order.
+func TestAdmissible(t *testing.T) {
+	got := admissible([]string{"root", "hd2", "hd1", "auth"}, []string{"auth", "hd1", "hd2", "root"})
+	if ids(got) != "auth,hd2,hd1,root" {
+		t.Fatalf("got %v", got)
 	}
 }
